@@ -413,15 +413,13 @@ Proof.
   intros Hnd H Hb. pose proof (common_keys _ _ _ _ Hnd H k) as S. unfold entry_spec in S. rewrite Hb in S. exact S.
 Qed.
 
-(* the fresh copy: b itself, unless `?` (nothing is created below) or `+d` *)
-Lemma fresh_id fl : f_existing fl = false -> f_append fl && f_deep fl = false ->
-  forall b, ukeys b -> mv fl None b = Some b.
+(* the fresh copy is b itself, unless `?` (nothing is created below) *)
+Lemma fresh_id fl : f_existing fl = false -> forall b, ukeys b -> mv fl None b = Some b.
 Proof.
-  intros Hex Hpd. induction b as [t v | l IH | es IH] using node_ind'; intros Hu.
+  intros Hex. induction b as [t v | l IH | es IH] using node_ind'; intros Hu.
   - reflexivity.
   - inversion Hu as [|l' Hall|]; subst. rewrite Forall_forall in IH, Hall.
-    cbn [mv]. destruct (f_deep fl) eqn:Ed; [|reflexivity].
-    rewrite andb_true_r in Hpd. rewrite Hpd.
+    cbn [mv]. destruct (f_deep fl && negb (f_append fl)); [|reflexivity].
     change (items_with (mv fl) [] l) with (merge_items fl [] l).
     rewrite merge_items_fresh; [reflexivity|]. intros kc Hin. apply IH; [exact Hin | apply Hall; exact Hin].
   - inversion Hu as [| |es' Hnd Hall]; subst. rewrite Forall_forall in IH, Hall.
@@ -433,10 +431,9 @@ Theorem empty_identity_right fl ea : merge fl (Map ea) (Map []) = Some (Map ea).
 Proof. reflexivity. Qed.
 
 Theorem empty_identity_left fl eb :
-  f_existing fl = false -> f_append fl && f_deep fl = false -> ukeys (Map eb) ->
-  merge fl (Map []) (Map eb) = Some (Map eb).
+  f_existing fl = false -> ukeys (Map eb) -> merge fl (Map []) (Map eb) = Some (Map eb).
 Proof.
-  intros Hex Hpd Hu. pose proof (fresh_id fl Hex Hpd (Map eb) Hu) as H. rewrite mv_fresh_map in H.
+  intros Hex Hu. pose proof (fresh_id fl Hex (Map eb) Hu) as H. rewrite mv_fresh_map in H.
   rewrite merge_map_map. exact H.
 Qed.
 
@@ -451,7 +448,8 @@ Proof.
   - inversion Hu as [|l' Hall|]; subst. rewrite Forall_forall in IH, Hall.
     assert (merge_items fl l l = Some l) as Hm.
     { apply merge_items_fixpoint. intros kc Hin. apply IH; [exact Hin | apply Hall; exact Hin]. }
-    cbn [mv]. rewrite Hap. change (items_with (mv fl) l l) with (merge_items fl l l). rewrite Hm.
+    cbn [mv]. rewrite Hap. cbn [negb]. rewrite andb_true_r.
+    change (items_with (mv fl) l l) with (merge_items fl l l). rewrite Hm.
     destruct (f_new fl), (f_deep fl); reflexivity.
   - inversion Hu as [| |es' Hnd Hall]; subst. rewrite Forall_forall in IH, Hall.
     change (mv fl (Some (Map es)) (Map es)) with (merge fl (Map es) (Map es)). rewrite merge_map_map.
@@ -502,7 +500,7 @@ Proof. intros H. destruct vb as [t v|l|es]; [| |contradiction H; reflexivity]; d
 
 Theorem default_map_over_other va eb : kind_of va <> KMap -> ukeys (Map eb) -> mv fl0 (Some va) (Map eb) = Some (Map eb).
 Proof.
-  intros H Hu. pose proof (fresh_id fl0 eq_refl eq_refl (Map eb) Hu) as F.
+  intros H Hu. pose proof (fresh_id fl0 eq_refl (Map eb) Hu) as F.
   destruct va as [t v|l|es]; [exact F | exact F | contradiction H; reflexivity].
 Qed.
 
@@ -512,7 +510,7 @@ Proof.
   intros Hf Hk.
   assert (f_append fl = false) as Ha.
   { unfold flagged in Hf. destruct (f_append fl); [discriminate | reflexivity]. }
-  destruct vb as [t v|l|es], va as [t' v'|l'|es']; cbn [mv kind_of]; rewrite ?Hf, ?Ha;
+  destruct vb as [t v|l|es], va as [t' v'|l'|es']; cbn [mv kind_of]; rewrite ?Hf, ?Ha; cbn [negb]; rewrite ?andb_true_r;
     try reflexivity; contradiction Hk; reflexivity.
 Qed.
 
@@ -520,26 +518,21 @@ Theorem seq_replaced fl la lb :
   f_append fl = false -> f_deep fl = false -> f_new fl = false -> mv fl (Some (Seq la)) (Seq lb) = Some (Seq lb).
 Proof. intros H1 H2 H3. cbn [mv]. rewrite H1, H2, H3. reflexivity. Qed.
 
+(* `+` appends, with or without `d` *)
 Theorem seq_appended fl la lb :
-  f_append fl = true -> f_deep fl = false -> f_new fl = false -> mv fl (Some (Seq la)) (Seq lb) = Some (Seq (la ++ lb)).
-Proof. intros H1 H2 H3. cbn [mv]. rewrite H1, H2, H3. reflexivity. Qed.
+  f_append fl = true -> f_new fl = false -> mv fl (Some (Seq la)) (Seq lb) = Some (Seq (la ++ lb)).
+Proof. intros H1 H3. cbn [mv]. rewrite H1, H3. reflexivity. Qed.
 
 Theorem seq_by_position fl la lb r :
   f_append fl = false -> f_deep fl = true -> mv fl (Some (Seq la)) (Seq lb) = Some r ->
   exists lr, r = Seq lr /\ length lr = Nat.max (length la) (length lb) /\ forall i, item_spec fl la lb lr i.
 Proof.
-  intros H1 H2 H. cbn [mv] in H. rewrite H1, H2 in H.
+  intros H1 H2 H. cbn [mv] in H. rewrite H1, H2 in H. cbn [negb andb] in H.
   change (items_with (mv fl) la lb) with (merge_items fl la lb) in H.
   assert (option_map Seq (merge_items fl la lb) = Some r) as H' by (destruct (f_new fl); exact H).
   destruct (merge_items fl la lb) as [lr|] eqn:E; [|discriminate]. injection H' as <-.
   exists lr. split; [reflexivity | exact (merge_items_nth fl lb la lr E)].
 Qed.
-
-(* `+d`: appended, then b's items once more by position on the appended sequence *)
-Theorem seq_append_deep fl la lb :
-  f_append fl = true -> f_deep fl = true -> f_new fl = false ->
-  mv fl (Some (Seq la)) (Seq lb) = option_map Seq (merge_items fl (la ++ lb) lb).
-Proof. intros H1 H2 H3. cbn [mv]. rewrite H1, H2, H3. reflexivity. Qed.
 
 (* ---------- `?` and `n` ---------- *)
 Theorem only_existing fl ea eb er :
@@ -574,14 +567,14 @@ Proof.
   destruct S as (v & Hv & Hl). rewrite (keeps_existing_value fl va vb Hn Hnull Hk) in Hv. congruence.
 Qed.
 
-(* a key only b has is written in full under `n` (unless `?` or `+d`) *)
+(* a key only b has is written in full under `n` (unless `?`) *)
 Theorem only_new_writes_new fl ea eb er k vb :
-  f_existing fl = false -> f_append fl && f_deep fl = false -> ukeys (Map eb) ->
+  f_existing fl = false -> ukeys (Map eb) ->
   merge fl (Map ea) (Map eb) = Some (Map er) -> lookup ea k = None -> lookup eb k = Some vb -> lookup er k = Some vb.
 Proof.
-  intros Hex Hpd Hu H Ha Hb. inversion Hu as [| |es' Hnd Hall]; subst.
+  intros Hex Hu H Ha Hb. inversion Hu as [| |es' Hnd Hall]; subst.
   pose proof (common_keys _ _ _ _ Hnd H k) as S. unfold entry_spec in S. rewrite Hb, Ha, Hex in S.
-  destruct S as (v & Hv & Hl). rewrite (fresh_id fl Hex Hpd vb (ukeys_lookup _ _ _ Hu Hb)) in Hv. congruence.
+  destruct S as (v & Hv & Hl). rewrite (fresh_id fl Hex vb (ukeys_lookup _ _ _ Hu Hb)) in Hv. congruence.
 Qed.
 
 (* ---------- the multi-document reduce ---------- *)
@@ -599,5 +592,35 @@ Theorem merge_all_two fl d1 d2 :
 Proof. reflexivity. Qed.
 
 Theorem merge_all_single fl eb :
-  f_existing fl = false -> f_append fl && f_deep fl = false -> ukeys (Map eb) -> merge_all fl [Map eb] = Some (Map eb).
-Proof. intros Hex Hpd Hu. cbn. apply empty_identity_left; assumption. Qed.
+  f_existing fl = false -> ukeys (Map eb) -> merge_all fl [Map eb] = Some (Map eb).
+Proof. intros Hex Hu. cbn. apply empty_identity_left; assumption. Qed.
+
+(* ---------- `+d` is `+` ---------- *)
+Lemma entries_with_ext fl fl' (rec rec' : option node -> node -> option node) :
+  f_existing fl = f_existing fl' -> forall eb acc,
+  (forall k vb, In (k, vb) eb -> forall t, rec t vb = rec' t vb) ->
+  entries_with fl rec acc eb = entries_with fl' rec' acc eb.
+Proof.
+  intros Hex. induction eb as [|[k vb] r IH]; intros acc H; [reflexivity|].
+  cbn [entries_with]. rewrite <- Hex.
+  assert (forall acc', entries_with fl rec acc' r = entries_with fl' rec' acc' r) as IH'.
+  { intros acc'. apply IH. intros k' vb' Hin. apply (H k' vb'). right. exact Hin. }
+  destruct (lookup acc k) as [va|].
+  - rewrite <- (H k vb (or_introl eq_refl) (Some va)). destruct (rec (Some va) vb); [apply IH' | reflexivity].
+  - destruct (f_existing fl); [apply IH'|].
+    rewrite <- (H k vb (or_introl eq_refl) None). destruct (rec None vb); [apply IH' | reflexivity].
+Qed.
+
+Definition no_deep (fl : flags) : flags := mkFlags (f_append fl) false (f_existing fl) (f_new fl).
+
+Theorem append_ignores_deep fl : f_append fl = true -> forall b t, mv fl t b = mv (no_deep fl) t b.
+Proof.
+  intros Hap. induction b as [tg tx | l IH | es IH] using node_ind'; intros t.
+  - destruct t as [[| |]|]; cbn [mv kind_of]; unfold flagged, writable, no_deep; cbn [f_append f_existing f_new]; reflexivity.
+  - destruct t as [[| |]|]; cbn [mv]; unfold flagged, no_deep; cbn [f_append f_existing f_new f_deep]; rewrite Hap; cbn [negb orb];
+      rewrite ?andb_false_r; try reflexivity; try (destruct (f_new fl); reflexivity).
+  - rewrite Forall_forall in IH.
+    assert (forall acc, entries_with fl (mv fl) acc es = entries_with (no_deep fl) (mv (no_deep fl)) acc es) as E.
+    { intros acc. apply entries_with_ext; [reflexivity|]. intros k vb Hin t'. exact (IH (k, vb) Hin t'). }
+    destruct t as [[| |]|]; cbn [mv]; rewrite ?E; unfold flagged, no_deep; cbn [f_append f_existing f_new]; reflexivity.
+Qed.
